@@ -212,8 +212,14 @@ class C19(F.PropCheck):
                 a = F.short(ref['lines'][i]) if i < len(ref['lines']) else 'end of trace'
                 b = F.short(r['lines'][i]) if i < len(r['lines']) else 'end of trace'
                 w = (W32 - r['boot']) % W32
-                v.append('trace relative to boot differs between boot=%d and boot=%d (counter wraps at t=%d us): line %d is [%s] vs [%s]' %
-                         (ref['boot'], r['boot'], w, i, a, b))
+                la = ref['lines'][i] if i < len(ref['lines']) else None; lb = r['lines'][i] if i < len(r['lines']) else None
+                kinds = {x[0] for x in (la, lb) if x}
+                if 'RESTART' in kinds: what = 'restart time'
+                elif 'GPIO' in kinds: what = 'output switching time'
+                elif kinds & {'CONNECT', 'DISCONNECT'}: what = 'connection handling'
+                else: what = 'frames sent'
+                v.append('%s depends on the boot value of the counter: trace relative to boot differs between boot=%d and boot=%d (counter wraps at t=%d us): line %d is [%s] vs [%s]' %
+                         (what, ref['boot'], r['boot'], w, i, a, b))
                 break
         return v
 
